@@ -9,7 +9,8 @@ order of the cells, chosen afresh in every pass: the events `Ev.loop c` / `Ev.cl
 choice `c`, which is read only at a `pick` pc).  Every theorem is over *every* event list accepted by
 the model, hence over every visiting order; no theorem has a hypothesis about the order.  "The winning
 call has returned" is `s.closers w = .returned r` (only the call whose CAS succeeded can reach that pc;
-calls whose CAS failed end in `returnedNil`).
+calls whose CAS failed wait at `waitWinner` = `<-s.closeDone` until the winning call has returned — repair D17 —
+and then end in `returnedNil`).
 
 Order inside the winning call (scope.go, current code): CAS, `close(done)`, `wg.Wait()`, final pass
 (`registry.Report` / `CachedReport`, NO flush), `registry.purge()`, then `Flush`, then the reporter's `Close`.
@@ -18,7 +19,10 @@ every cell before (`Tok.clean` at `purgePc`), so the reporter-visible log shape 
 `… deliver …, flush[, reporterClose]` (see `complete_close_purges_before_flush` below).
 
 Scope of the statements (what the model does not say):
-* the barrier is for the winning caller (`concurrent_close_returns_early`, known limitation D5b);
+* the barrier is for EVERY caller (`every_close_call_is_a_barrier`): since repair D17 a call that loses the CAS
+  returns only after the winning call has returned (the former limitation D5b is kept as a run of the old
+  behaviour, `legacy_concurrent_close_returns_early`); the price is that a losing call blocks as long as the
+  winner does (`no_deadlock`, `loser_can_complete`);
 * `close_can_complete` is an existence statement: `Close` now waits for the loop goroutine, hence for a
   reporter call the periodic pass may be blocked in — a reporter that never returns blocks `Close`;
 * cells are buffered metrics.  A timer on an old handle is not buffered: `timer.Record` after `Close`
@@ -29,10 +33,11 @@ namespace Tally.Props.C08
 open Tally Tally.RootClose
 
 /-- the call that reached `returned` is the one whose CAS succeeded, and it is the only call that is
-neither at its CAS nor returned nil -/
+neither at its CAS nor waiting for the winner (`<-s.closeDone`) nor returned nil -/
 theorem winner_unique (k : Nat) (hl cl : Bool) (er : Option Nat) (es : List Ev) (s : State)
     (hr : run (init k hl cl er) es = some s) (w : Nat) (r : Option Nat) (hret : s.closers w = .returned r) :
-    s.winner = some w ∧ ∀ t, t ≠ w → s.closers t = .start ∨ s.closers t = .returnedNil := by
+    s.winner = some w ∧
+      ∀ t, t ≠ w → s.closers t = .start ∨ s.closers t = .returnedNil ∨ s.closers t = .waitWinner := by
   obtain ⟨hc, _⟩ := reachable_inv k hl cl er es s hr
   have hw := hc.winner_of w (by rw [hret]; simp [ph])
   exact ⟨hw, fun t ht => hc.others t (by rw [hw]; simp; exact fun e => ht e.symm)⟩
@@ -64,7 +69,7 @@ theorem close_barrier (k : Nat) (hl cl : Bool) (er : Option Nat) (es : List Ev) 
     intro t
     by_cases htw : t = w
     · subst htw; rw [hret]; rfl
-    · rcases hoth t htw with h1 | h1 <;> rw [h1] <;> rfl
+    · rcases hoth t htw with h1 | h1 | h1 <;> rw [h1] <;> rfl
   refine ⟨?_, ht.dropNoPre, hclean, ⟨by rw [hex]; rfl, hpend⟩, ?_, ?_, hex, ?_⟩
   · intro tok hmem hpre
     have h1 := ht.cons tok
@@ -85,7 +90,7 @@ theorem close_barrier (k : Nat) (hl cl : Bool) (er : Option Nat) (es : List Ev) 
   · intro t
     by_cases htw : t = w
     · subst htw; rw [hret]; rfl
-    · rcases hoth t htw with h1 | h1 <;> rw [h1] <;> rfl
+    · rcases hoth t htw with h1 | h1 | h1 <;> rw [h1] <;> rfl
 
 /-- in every reachable state, Close or not, no token at all reaches the reporter twice -/
 theorem delivered_at_most_once (k : Nat) (hl cl : Bool) (er : Option Nat) (es : List Ev) (s : State)
@@ -94,6 +99,64 @@ theorem delivered_at_most_once (k : Nat) (hl cl : Bool) (er : Option Nat) (es : 
   have h1 := ht.cons tok
   have h2 := List.nodup_iff_count.mp ht.nodup tok
   omega
+
+/-- **C08, every call is a barrier (repair D17).**  In every reachable state, for EVERY `Close` call `t` that has
+returned — the winning call (`returned r`) or a call that lost the CAS (`returnedNil`) — the whole conclusion of
+`close_barrier` holds: a losing call returns only after `closeDone` was closed (`Ctl.nil_cd`), and `closeDone` is
+closed only by the winning call as it returns (`Ctl.cd_iff`). -/
+theorem every_close_call_is_a_barrier (k : Nat) (hl cl : Bool) (er : Option Nat) (es : List Ev) (s : State)
+    (hr : run (init k hl cl er) es = some s) (t : Nat)
+    (hret : (∃ r, s.closers t = .returned r) ∨ s.closers t = .returnedNil) :
+    (∀ tok ∈ s.issued, tok.pre = true → (delivered s.log).count tok = 1) ∧
+    (∀ tok ∈ s.dropped, tok.pre = false) ∧
+    (∀ tok ∈ s.cells.flatten, tok.pre = false) ∧
+    (s.loop.pend = [] ∧ ∀ t, (s.closers t).pend = []) ∧
+    (∃ rest, s.log = if cl then .reporterClose :: .flush :: rest else .flush :: rest) ∧
+    countRC s.log = (if cl then 1 else 0) ∧
+    s.loop = .exited ∧
+    (∀ t, (s.closers t).inPass = false) := by
+  rcases hret with ⟨r, hret⟩ | hnil
+  · exact close_barrier k hl cl er es s hr t r hret
+  · -- a call that lost the CAS: `closeDone` is closed, hence the winning call has returned
+    have hc := (reachable_inv k hl cl er es s hr).1
+    have hcd := hc.nil_cd t hnil
+    rw [hc.cd_iff] at hcd
+    have h7 : 7 ≤ ph (wpc s) := by simpa using hcd
+    cases hw : s.winner with
+    | none => rw [wpc, hw] at h7; simp [ph] at h7
+    | some w =>
+      rw [wpc_of_winner hw] at h7
+      cases hp : s.closers w with
+      | returned r => exact close_barrier k hl cl er es s hr w r hp
+      | _ => rw [hp] at h7; simp [ph] at h7
+
+/-- the two facts behind it: `closeDone` is closed iff the winning call has returned, and a call that lost the CAS
+has returned only if `closeDone` is closed — so "some call has returned" implies "the winning call has returned" -/
+theorem loser_returns_after_winner (k : Nat) (hl cl : Bool) (er : Option Nat) (es : List Ev) (s : State)
+    (hr : run (init k hl cl er) es = some s) :
+    (s.closeDone = true ↔ ∃ w r, s.winner = some w ∧ s.closers w = .returned r) ∧
+    (∀ t, s.closers t = .returnedNil → s.closeDone = true) ∧
+    (∀ t r, (t, r) ∈ s.returns → ∃ w r', s.winner = some w ∧ s.closers w = .returned r') := by
+  have hc := (reachable_inv k hl cl er es s hr).1
+  have hiff : s.closeDone = true ↔ ∃ w r, s.winner = some w ∧ s.closers w = .returned r := by
+    constructor
+    · intro hcd
+      rw [hc.cd_iff] at hcd
+      have h7 : 7 ≤ ph (wpc s) := by simpa using hcd
+      cases hw : s.winner with
+      | none => rw [wpc, hw] at h7; simp [ph] at h7
+      | some w =>
+        rw [wpc_of_winner hw] at h7
+        cases hp : s.closers w with
+        | returned r => exact ⟨w, r, rfl, hp⟩
+        | _ => rw [hp] at h7; simp [ph] at h7
+    · rintro ⟨w, r, hw, hp⟩
+      rw [hc.cd_iff, wpc_of_winner hw, hp]; simp [ph]
+  refine ⟨hiff, hc.nil_cd, ?_⟩
+  intro t r hm
+  rcases hc.rets t r hm with h1 | ⟨h1, _⟩
+  · exact ⟨t, r, hc.winner_of t (by rw [h1]; simp [ph]), h1⟩
+  · exact hiff.mp (hc.nil_cd t h1)
 
 /-! ## silence after Close -/
 
@@ -132,43 +195,76 @@ theorem cas_enabled (s : State) (t : Nat) (hpc : s.closers t = .start) (c : Nat)
     (step s (.closer t c)).isSome = true := by
   simp only [step, hpc]; split <;> rfl
 
-/-- a `Close` call whose CAS fails (the flag is already set) returns nil at once and touches nothing:
-not the log, not the `done` channel, not the cells, not the loop, not any other call -/
+/-- a `Close` call whose CAS fails (the flag is already set) touches nothing — not the log, not the `done`
+channel, not the cells, not the loop, not any other call — and does NOT return yet: it goes on to `<-s.closeDone`
+(repair D17; before, it returned nil at once) -/
 theorem close_idempotent_step (s s' : State) (t : Nat) (hclosed : s.closed = true) (hpc : s.closers t = .start)
     (c : Nat) (hs : step s (.closer t c) = some s') :
-    s'.closers t = .returnedNil ∧ s'.returns = (t, none) :: s.returns ∧
+    s'.closers t = .waitWinner ∧ s'.returns = s.returns ∧
     s'.log = s.log ∧ s'.doneClosed = s.doneClosed ∧ s'.closed = s.closed ∧ s'.purged = s.purged ∧
     s'.cells = s.cells ∧ s'.dropped = s.dropped ∧ s'.issued = s.issued ∧ s'.loop = s.loop ∧
-    s'.winner = s.winner ∧ (∀ u, u ≠ t → s'.closers u = s.closers u) := by
+    s'.winner = s.winner ∧ s'.closeDone = s.closeDone ∧ (∀ u, u ≠ t → s'.closers u = s.closers u) := by
   simp only [step, hpc, hclosed, if_true, Option.some.injEq] at hs; subst hs
-  refine ⟨by simp [setC], rfl, rfl, rfl, rfl, rfl, rfl, rfl, rfl, rfl, rfl, ?_⟩
+  refine ⟨by simp [setC], rfl, rfl, rfl, rfl, rfl, rfl, rfl, rfl, rfl, rfl, rfl, ?_⟩
   intro u hu; simp [setC, hu]
 
-/-- **C08, idempotence.**  In every reachable state in which the flag is set — in particular after the
-first `Close` has returned — a further `Close` call is enabled, returns nil, and delivers nothing. -/
+/-- a call at `<-s.closeDone` can move iff the channel is closed (any choice) … -/
+theorem wait_enabled_iff (s : State) (t : Nat) (hpc : s.closers t = .waitWinner) (c : Nat) :
+    (step s (.closer t c)).isSome = s.closeDone := by
+  simp only [step, hpc]; cases s.closeDone <;> rfl
+
+/-- … and its step is the return of nil: recorded in `returns`, nothing else is touched -/
+theorem wait_return_step (s s' : State) (t : Nat) (hpc : s.closers t = .waitWinner)
+    (c : Nat) (hs : step s (.closer t c) = some s') :
+    s.closeDone = true ∧ s'.closers t = .returnedNil ∧ s'.returns = (t, none) :: s.returns ∧
+    s'.log = s.log ∧ s'.doneClosed = s.doneClosed ∧ s'.closed = s.closed ∧ s'.purged = s.purged ∧
+    s'.cells = s.cells ∧ s'.dropped = s.dropped ∧ s'.issued = s.issued ∧ s'.loop = s.loop ∧
+    s'.winner = s.winner ∧ s'.closeDone = s.closeDone ∧ (∀ u, u ≠ t → s'.closers u = s.closers u) := by
+  simp only [step, hpc] at hs
+  split at hs
+  · next hcd =>
+    simp only [Option.some.injEq] at hs; subst hs
+    refine ⟨hcd, by simp [setC], rfl, rfl, rfl, rfl, rfl, rfl, rfl, rfl, rfl, rfl, rfl, ?_⟩
+    intro u hu; simp [setC, hu]
+  · cases hs
+
+/-- **C08, idempotence.**  In every reachable state in which the flag is set a further `Close` call is enabled,
+delivers nothing and touches nothing; it then waits for the winning call (`waitWinner`). -/
 theorem close_idempotent (k : Nat) (hl cl : Bool) (er : Option Nat) (es : List Ev) (s : State)
     (_hr : run (init k hl cl er) es = some s) (t : Nat) (hclosed : s.closed = true) (hpc : s.closers t = .start)
     (c : Nat) :
-    ∃ s', step s (.closer t c) = some s' ∧ s'.closers t = .returnedNil ∧ s'.log = s.log ∧
+    ∃ s', step s (.closer t c) = some s' ∧ s'.closers t = .waitWinner ∧ s'.log = s.log ∧
       s'.doneClosed = s.doneClosed ∧ s'.cells = s.cells ∧ s'.dropped = s.dropped ∧ s'.loop = s.loop := by
   have hen := cas_enabled s t hpc c
   cases hs : step s (.closer t c) with
   | none => rw [hs] at hen; cases hen
   | some s' =>
-    obtain ⟨a, _, b, c', _, _, d, e, _, f, _, _⟩ := close_idempotent_step s s' t hclosed hpc c hs
+    obtain ⟨a, _, b, c', _, _, d, e, _, f, _, _, _⟩ := close_idempotent_step s s' t hclosed hpc c hs
     exact ⟨s', rfl, a, b, c', d, e, f⟩
 
-/-- a second call after the first returned: same, and the first caller's result stays -/
+/-- a second call after the first returned: its CAS fails, `closeDone` is closed already, so its two steps are
+enabled one after the other; it returns nil, the log is what it was and the first caller's result stays -/
 theorem second_close_returns_nil (k : Nat) (hl cl : Bool) (er : Option Nat) (es : List Ev) (s : State)
     (hr : run (init k hl cl er) es = some s) (w : Nat) (r : Option Nat) (hret : s.closers w = .returned r)
-    (t : Nat) (hpc : s.closers t = .start) (c : Nat) :
-    ∃ s', step s (.closer t c) = some s' ∧ s'.closers t = .returnedNil ∧ s'.log = s.log ∧
+    (t : Nat) (hpc : s.closers t = .start) (c c' : Nat) :
+    ∃ s', run s [.closer t c, .closer t c'] = some s' ∧ s'.closers t = .returnedNil ∧ s'.log = s.log ∧
       s'.closers w = .returned r := by
   have hc := (reachable_inv k hl cl er es s hr).1
   have hw := hc.winner_of w (by rw [hret]; simp [ph])
   have hclosed : s.closed = true := by rw [hc.closed_iff, hw]; rfl
-  obtain ⟨s', hs, a, b, _⟩ := close_idempotent k hl cl er es s hr t hclosed hpc c
-  exact ⟨s', hs, a, b, (silent_step s s' _ hc w r hret hs).2.1⟩
+  have hcd : s.closeDone = true := by rw [hc.cd_iff, wpc_of_winner hw, hret]; simp [ph]
+  obtain ⟨s1, hs1, a1, b1, _⟩ := close_idempotent k hl cl er es s hr t hclosed hpc c
+  have hcd1 : s1.closeDone = true := by
+    obtain ⟨_, _, _, _, _, _, _, _, _, _, _, h12, _⟩ := close_idempotent_step s s1 t hclosed hpc c hs1
+    rw [h12]; exact hcd
+  have hret1 : s1.closers w = .returned r := (silent_step s s1 _ hc w r hret hs1).2.1
+  have hen : (step s1 (.closer t c')).isSome = true := by rw [wait_enabled_iff s1 t a1 c']; exact hcd1
+  cases hs2 : step s1 (.closer t c') with
+  | none => rw [hs2] at hen; cases hen
+  | some s2 =>
+    obtain ⟨_, a2, _, b2, _⟩ := wait_return_step s1 s2 t a1 c' hs2
+    refine ⟨s2, by simp [run, hs1, hs2], a2, b2.trans b1, ?_⟩
+    exact (silent_step s1 s2 _ (ctl_step s s1 _ hc hs1) w r hret1 hs2).2.1
 
 /-- every call other than the winner that has returned, returned nil -/
 theorem losers_return_nil (k : Nat) (hl cl : Bool) (er : Option Nat) (es : List Ev) (s : State)
@@ -176,7 +272,7 @@ theorem losers_return_nil (k : Nat) (hl cl : Bool) (er : Option Nat) (es : List 
     (hne : s.winner ≠ some t) : r = none ∧ s.closers t = .returnedNil := by
   have hc := (reachable_inv k hl cl er es s hr).1
   rcases hc.rets t r hm with h1 | ⟨h1, h2⟩
-  · rcases hc.others t hne with h3 | h3 <;> rw [h3] at h1 <;> cases h1
+  · rcases hc.others t hne with h3 | h3 | h3 <;> rw [h3] at h1 <;> cases h1
   · exact ⟨h2, h1⟩
 
 /-- `close(done)` is executed at most once (a second `close` of a Go channel would panic): whenever a
@@ -223,6 +319,30 @@ theorem scopes_after_close_inert (s s' : State) (c : Nat) (hclosed : s.closed = 
 
 /-! ## no deadlock -/
 
+/-- a call at `<-s.closeDone`: either the channel is closed and its step is enabled, or the winning call is still
+inside `Close` -/
+theorem waiting_call_or_winner_moves (s : State) (hc : Ctl s) (t : Nat) (hp : s.closers t = .waitWinner) :
+    (∀ c, (step s (.closer t c)).isSome = true) ∨
+    (s.closeDone = false ∧ ∃ w, s.winner = some w ∧ (s.closers w).midCall = true) := by
+  cases hcd : s.closeDone with
+  | true => left; intro c; rw [wait_enabled_iff s t hp c]; exact hcd
+  | false =>
+    right
+    refine ⟨rfl, ?_⟩
+    have hclosed := hc.waitW t hp
+    rw [hc.closed_iff] at hclosed
+    cases hw : s.winner with
+    | none => rw [hw] at hclosed; cases hclosed
+    | some w =>
+      refine ⟨w, rfl, ?_⟩
+      have h1 := hc.wne w hw
+      have h7 := hc.cd_iff
+      rw [hcd, wpc_of_winner hw] at h7
+      have h7' : ph (s.closers w) < 7 := by
+        apply Classical.byContradiction; intro hn
+        rw [decide_eq_true (by omega : 7 ≤ ph (s.closers w))] at h7; cases h7
+      cases hpw : s.closers w <;> rw [hpw] at h1 h7' <;> simp [ph, CPc.midCall] at h1 h7' ⊢
+
 /-- **C08, no deadlock.**  In every reachable state:
 * a call at its CAS can always take it;
 * a call inside `Close` can take its next step (inside the range loops of its final pass: with a
@@ -230,7 +350,10 @@ theorem scopes_after_close_inert (s s' : State) (c : Nat) (hclosed : s.closed = 
   `visiting_order_arbitrary`), except the winner at `wg.Wait()` while the loop goroutine is still
   alive — and then the loop goroutine has an enabled step (`done` is closed, so the `select` can take
   that case as soon as the loop is back there; inside a pass it can always go on);
-* the loop goroutine, while alive, always has an enabled step. -/
+* the loop goroutine, while alive, always has an enabled step;
+* (repair D17) a call that lost the CAS and waits at `<-s.closeDone` can take its step (return nil) as soon as the
+  winning call has returned; until then it is blocked — and then the winning call is inside `Close`, so it (or, at
+  its wait, the loop goroutine) has an enabled step by the second clause.  See `loser_can_complete`. -/
 theorem no_deadlock (k : Nat) (hl cl : Bool) (er : Option Nat) (es : List Ev) (s : State)
     (hr : run (init k hl cl er) es = some s) :
     (∀ t, s.closers t = .start → ∀ c, (step s (.closer t c)).isSome = true) ∧
@@ -238,7 +361,10 @@ theorem no_deadlock (k : Nat) (hl cl : Bool) (er : Option Nat) (es : List Ev) (s
       (∃ c, (step s (.closer t c)).isSome = true) ∨
       (s.closers t = .doneClosedPc ∧ s.loop ≠ .exited ∧ s.doneClosed = true ∧
         ((step s .exit).isSome = true ∨ ∃ c, (step s (.loop c)).isSome = true))) ∧
-    (s.loop ≠ .exited → (step s .tick).isSome = true ∨ ∃ c, (step s (.loop c)).isSome = true) := by
+    (s.loop ≠ .exited → (step s .tick).isSome = true ∨ ∃ c, (step s (.loop c)).isSome = true) ∧
+    (∀ t, s.closers t = .waitWinner →
+      (∀ c, (step s (.closer t c)).isSome = true) ∨
+      (s.closeDone = false ∧ ∃ w, s.winner = some w ∧ (s.closers w).midCall = true)) := by
   have hc := (reachable_inv k hl cl er es s hr).1
   have hpassL : ∀ p, s.loop = .pass p → ∃ c, (step s (.loop c)).isSome = true := by
     intro p hlp
@@ -252,10 +378,11 @@ theorem no_deadlock (k : Nat) (hl cl : Bool) (er : Option Nat) (es : List Ev) (s
     | waiting => left; simp [step, hlp]
     | ticked => right; refine ⟨0, ?_⟩; simp only [step, hlp]; split <;> rfl
     | pass p => right; exact hpassL p hlp
-  refine ⟨fun t hpc c => cas_enabled s t hpc c, ?_, hloop⟩
+  refine ⟨fun t hpc c => cas_enabled s t hpc c, ?_, hloop, fun t hp => waiting_call_or_winner_moves s hc t hp⟩
   intro t hmid
   cases hp : s.closers t with
   | start => rw [hp] at hmid; simp [CPc.midCall] at hmid
+  | waitWinner => rw [hp] at hmid; simp [CPc.midCall] at hmid
   | returned r => rw [hp] at hmid; simp [CPc.midCall] at hmid
   | returnedNil => rw [hp] at hmid; simp [CPc.midCall] at hmid
   | won => left; exact ⟨0, by simp [step, hp]⟩
@@ -350,8 +477,38 @@ theorem choice_irrelevant_outside_pick (s : State) (c c' : Nat) :
 the `done` case) after which it has returned: no reachable state is a trap for the closing caller. -/
 theorem close_can_complete (k : Nat) (hl cl : Bool) (er : Option Nat) (es : List Ev) (s : State)
     (hr : run (init k hl cl er) es = some s) (w : Nat) (hmid : (s.closers w).midCall = true) :
-    ∃ es' s' r, run s es' = some s' ∧ s'.closers w = .returned r :=
-  can_complete (variant s w) s (reachable_inv k hl cl er es s hr).1 w hmid (Nat.le_refl _)
+    ∃ es' s' r, run s es' = some s' ∧ s'.closers w = .returned r := by
+  obtain ⟨es', s', r, h1, h2, _⟩ :=
+    can_complete (variant s w) s (reachable_inv k hl cl er es s hr).1 w hmid (Nat.le_refl _)
+  exact ⟨es', s', r, h1, h2⟩
+
+/-- **C08, a waiting call can always complete (repair D17).**  From every reachable state in which a call that
+lost the CAS waits at `<-s.closeDone` there is a continuation after which it has returned nil: the winning call
+runs to its return (`close_can_complete`; none of those steps is a step of another `Close` call), which closes
+`closeDone`, and then the waiting call's step is enabled.  Making the losing calls wait has not introduced a trap. -/
+theorem loser_can_complete (k : Nat) (hl cl : Bool) (er : Option Nat) (es : List Ev) (s : State)
+    (hr : run (init k hl cl er) es = some s) (t : Nat) (hwait : s.closers t = .waitWinner) :
+    ∃ es' s', run s es' = some s' ∧ s'.closers t = .returnedNil := by
+  have hc := (reachable_inv k hl cl er es s hr).1
+  have fin : ∀ s1 : State, s1.closers t = .waitWinner → s1.closeDone = true →
+      ∃ s2, step s1 (.closer t 0) = some s2 ∧ s2.closers t = .returnedNil := by
+    intro s1 hp hcd
+    have hen : (step s1 (.closer t 0)).isSome = true := by rw [wait_enabled_iff s1 t hp 0]; exact hcd
+    cases hs : step s1 (.closer t 0) with
+    | none => rw [hs] at hen; cases hen
+    | some s2 => exact ⟨s2, rfl, (wait_return_step s1 s2 t hp 0 hs).2.1⟩
+  rcases waiting_call_or_winner_moves s hc t hwait with hen | ⟨hcd, w, hw, hmid⟩
+  · have hcd : s.closeDone = true := by rw [← wait_enabled_iff s t hwait 0]; exact hen 0
+    obtain ⟨s2, hs, hp⟩ := fin s hwait hcd
+    exact ⟨[.closer t 0], s2, by simp [run, hs], hp⟩
+  · obtain ⟨es', s1, r, hrun, hret, hoth⟩ := can_complete (variant s w) s hc w hmid (Nat.le_refl _)
+    have htw : t ≠ w := by
+      intro e; subst e; rw [hwait] at hmid; simp [CPc.midCall] at hmid
+    have hc1 := ctl_run s s1 es' hc hrun
+    have hw1 := hc1.winner_of w (by rw [hret]; simp [ph])
+    have hcd1 : s1.closeDone = true := by rw [hc1.cd_iff, wpc_of_winner hw1, hret]; simp [ph]
+    obtain ⟨s2, hs, hp⟩ := fin s1 ((hoth t htw).trans hwait) hcd1
+    exact ⟨es' ++ [.closer t 0], s2, run_append s s1 s2 es' _ hrun (by simp [run, hs]), hp⟩
 
 /-! ## a root created without an interval -/
 
@@ -383,16 +540,26 @@ theorem close_without_interval (k : Nat) (cl : Bool) (er : Option Nat) (es : Lis
     exact ⟨a, b, c, d, e, reporter_error_returned k false cl er es s hr w r hret,
       fun es' s' hr' => (silent_after_close k false cl er es s hr w r hret es' s' hr').1⟩
 
-/-! ## the limitation (D5b), the pinned code's defects, and non-vacuity -/
+/-! ## the former limitation (D5b, repaired: D17), the pinned code's defects, and non-vacuity -/
 
-/-- **Known limitation D5b.**  The barrier is for the winning caller only: a concurrent `Close` whose
-CAS fails returns nil at once, possibly while the winner has not even closed `done`, let alone
-finished its final report.  Here call 1 has returned nil while call 0 sits right after its CAS, the
-`pre` token is still in its cell and the reporter has seen nothing. -/
-theorem concurrent_close_returns_early :
+/-- **The former limitation D5b, as a run of the OLD behaviour** (`Legacy.step`: a call that loses the CAS returns
+nil at once).  The barrier was for the winning caller only: here call 1 has returned nil while call 0 sits right
+after its CAS, the `pre` token is still in its cell and the reporter has seen nothing. -/
+theorem legacy_concurrent_close_returns_early :
+    (Legacy.run (init 1 false true) [.record 0, .closer 0 0, .closer 1 0]).map (·.view 2) = some
+      { cells := [[{ id := 0, cell := 0, pre := true }]], closed := true, doneClosed := false, purged := false,
+        loop := .exited, closers := [.won, .returnedNil], log := [], dropped := [], returns := [(1, none)],
+        closeDone := false } := by
+  decide
+
+/-- the same schedule in the repaired model: call 1 has NOT returned, it waits at `<-s.closeDone`, and its next
+step is not enabled (whatever the choice); `every_close_call_is_a_barrier` is the general statement -/
+theorem concurrent_close_waits :
     (run (init 1 false true) [.record 0, .closer 0 0, .closer 1 0]).map (·.view 2) = some
       { cells := [[{ id := 0, cell := 0, pre := true }]], closed := true, doneClosed := false, purged := false,
-        loop := .exited, closers := [.won, .returnedNil], log := [], dropped := [], returns := [(1, none)] } := by
+        loop := .exited, closers := [.won, .waitWinner], log := [], dropped := [], returns := [],
+        closeDone := false } ∧
+    run (init 1 false true) [.record 0, .closer 0 0, .closer 1 0, .closer 1 0] = none := by
   decide
 
 /-- a schedule of the pinned code: a periodic pass is part-way through the registry (past cell 0), a
@@ -435,18 +602,20 @@ example : run (init 1 true true) legacyLateSchedule = none := by decide
 Two cells, a loop, a closable reporter whose `Close` returns error 7.  Two values are recorded, a
 periodic pass starts and is held inside the reporter call for cell 0 (slow reporter); a third value is
 recorded (still before Close); call 0 wins the CAS; a fourth value is recorded (after Close was called);
-call 0 closes `done`; call 1 loses the CAS and returns nil; call 0 is blocked in `wg.Wait()`; the pass
+call 0 closes `done`; call 1 loses the CAS and waits at `<-s.closeDone`; call 0 is blocked in `wg.Wait()`; the pass
 finishes (it delivers tokens 0, 1 and the late token 3), the loop takes the `done` case; call 0 runs
-its final pass (delivers token 2), purges, flushes, closes the reporter and returns 7.
-(The last six closer events: pick cell 0, deliver, pick cell 1 (empty), "loops over" → `purgePc`, purge →
-`flushPc`, flush → `reporterClose`; the 26th event closes the reporter.) -/
+its final pass (delivers token 2), purges, flushes, closes the reporter and returns 7 — which closes `closeDone`;
+only now call 1 returns nil.
+(The last six events of call 0: pick cell 0, deliver, pick cell 1 (empty), "loops over" → `purgePc`, purge →
+`flushPc`, flush → `reporterClose`; the 26th event closes the reporter, the 27th is the return of call 1.) -/
 def demo : List Ev :=
   [.record 0, .record 1, .tick, .loop 0, .loop 0, .loop 0, .record 0, .closer 0 0, .record 1, .closer 0 0, .closer 1 0,
    .loop 0, .loop 1, .loop 0, .loop 2, .loop 0, .exit,
    .closer 0 0, .closer 0 0,                 -- wait returns, begin
    .closer 0 0, .closer 0 0, .closer 0 1,    -- cell 0: swap, deliver; cell 1: empty
    .closer 0 2,                              -- the range loops are over → about to purge (no flush yet)
-   .closer 0 0, .closer 0 0, .closer 0 0]    -- purge, flush, reporter close
+   .closer 0 0, .closer 0 0, .closer 0 0,    -- purge, flush, reporter close (and `closeDone` is closed)
+   .closer 1 0]                              -- the call that lost the CAS returns nil
 
 /-- the hypotheses of `close_barrier` / `silent_after_close` / `reporter_error_returned` are satisfiable -/
 example :
@@ -456,7 +625,17 @@ example :
         log := [.reporterClose, .flush, .deliver [{ id := 2, cell := 0, pre := true }], .internal, .flush,
                 .deliver [{ id := 3, cell := 1, pre := false }, { id := 1, cell := 1, pre := true }],
                 .deliver [{ id := 0, cell := 0, pre := true }], .internal],
-        dropped := [], returns := [(0, some 7), (1, none)] } := by decide
+        dropped := [], returns := [(1, none), (0, some 7)], closeDone := true } := by decide
+
+/-- in that run call 1 waits from the 11th event on; right before the winner's last step (26 events) it is still
+waiting and its step is not enabled; after that step it is -/
+example :
+    (run (init 2 true true (some 7)) (demo.take 25)).map
+        (fun s => (s.closers 0, s.closers 1, s.closeDone, (step s (.closer 1 0)).isSome, s.returns.length))
+      = some (.reporterClose, .waitWinner, false, false, 0) ∧
+    (run (init 2 true true (some 7)) (demo.take 26)).map
+        (fun s => (s.closers 0, s.closers 1, s.closeDone, (step s (.closer 1 0)).isSome, s.returns.length))
+      = some (.returned (some 7), .waitWinner, true, true, 1) := by decide
 
 /-- the three `pre` tokens of that run are each delivered once (and the `issued` ghost knows them) -/
 example :
@@ -472,14 +651,15 @@ example :
       = some (.doneClosedPc, false, .pass (.deliver 0 [{ id := 0, cell := 0, pre := true }] [0]), true, false) := by
   decide
 
-/-- silence and idempotence after the return: records on old handles, a third `Close`, a `Subscope`;
+/-- silence and idempotence after the return: records on old handles, a third `Close` (two steps: the failed CAS,
+then the receive from the closed `closeDone`), a `Subscope`;
 the log is what it was, the late records are dropped, the late `Close` returned nil, the scope is inert;
 and the loop's events are not enabled any more -/
 example :
-    (run (init 2 true true (some 7)) (demo ++ [.record 0, .closer 2 0, .record 1, .obtain 0])).map
+    (run (init 2 true true (some 7)) (demo ++ [.record 0, .closer 2 0, .record 1, .closer 2 0, .obtain 0])).map
         (fun s => (s.log.length, s.closers 2, s.dropped.map (·.pre), s.closers 0))
       = some (8, .returnedNil, [false, false], .returned (some 7)) ∧
-    (run (init 2 true true (some 7)) (demo ++ [.record 0, .closer 2 0, .record 1, .obtain 0])).map (·.handed)
+    (run (init 2 true true (some 7)) (demo ++ [.record 0, .closer 2 0, .record 1, .closer 2 0, .obtain 0])).map (·.handed)
       = some [none] ∧
     run (init 2 true true (some 7)) (demo ++ [.tick]) = none ∧
     (∀ c, c < 3 → run (init 2 true true (some 7)) (demo ++ [.loop c]) = none) ∧
@@ -494,7 +674,7 @@ example :
       { cells := [[]], closed := true, doneClosed := true, purged := true, loop := .exited,
         closers := [.returned none],
         log := [.flush, .deliver [{ id := 0, cell := 0, pre := true }], .internal],
-        dropped := [], returns := [(0, none)] } := by decide
+        dropped := [], returns := [(0, none)], closeDone := true } := by decide
 
 /-! ### the log of a complete `Close`: final pass, purge, THEN flush, reporter close
 
@@ -514,19 +694,19 @@ theorem complete_close_purges_before_flush :
     (run (init 1 false true) (purgeThenFlush.take 9)).map (·.view 1) = some
       { cells := [[{ id := 1, cell := 0, pre := false }]], closed := true, doneClosed := true, purged := false,
         loop := .exited, closers := [.purgePc],
-        log := [.deliver [{ id := 0, cell := 0, pre := true }], .internal], dropped := [], returns := [] } ∧
+        log := [.deliver [{ id := 0, cell := 0, pre := true }], .internal], dropped := [], returns := [], closeDone := false } ∧
     (run (init 1 false true) purgeThenFlush).map (·.view 1) = some
       { cells := [[]], closed := true, doneClosed := true, purged := true, loop := .exited, closers := [.flushPc],
         log := [.deliver [{ id := 0, cell := 0, pre := true }], .internal],
-        dropped := [{ id := 1, cell := 0, pre := false }], returns := [] } ∧
+        dropped := [{ id := 1, cell := 0, pre := false }], returns := [], closeDone := false } ∧
     (run (init 1 false true) (purgeThenFlush ++ [.closer 0 0])).map (·.view 1) = some
       { cells := [[]], closed := true, doneClosed := true, purged := true, loop := .exited, closers := [.reporterClose],
         log := [.flush, .deliver [{ id := 0, cell := 0, pre := true }], .internal],
-        dropped := [{ id := 1, cell := 0, pre := false }], returns := [] } ∧
+        dropped := [{ id := 1, cell := 0, pre := false }], returns := [], closeDone := false } ∧
     (run (init 1 false true) (purgeThenFlush ++ [.closer 0 0, .closer 0 0])).map (·.view 1) = some
       { cells := [[]], closed := true, doneClosed := true, purged := true, loop := .exited, closers := [.returned none],
         log := [.reporterClose, .flush, .deliver [{ id := 0, cell := 0, pre := true }], .internal],
-        dropped := [{ id := 1, cell := 0, pre := false }], returns := [(0, none)] } := by decide
+        dropped := [{ id := 1, cell := 0, pre := false }], returns := [(0, none)], closeDone := true } := by decide
 
 /-- the same as a plain `example`: with the closer at `flushPc` the registry is purged and the last log entry
 is a delivery; one step later the log ends with the flush -/
@@ -584,7 +764,7 @@ example :
                 .deliver [{ id := 0, cell := 0, pre := true }],
                 .deliver [{ id := 2, cell := 2, pre := true }],
                 .deliver [{ id := 1, cell := 1, pre := true }], .internal],
-        dropped := [{ id := 6, cell := 2, pre := false }], returns := [(0, some 7)] } ∧
+        dropped := [{ id := 6, cell := 2, pre := false }], returns := [(0, some 7)], closeDone := true } ∧
     (run (init 3 true true (some 7)) shuffled).map
         (fun s => (s.issued.filter (·.pre)).map fun tok => (tok.id, (delivered s.log).count tok))
       = some [(5, 1), (4, 1), (3, 1), (2, 1), (1, 1), (0, 1)] := by decide
